@@ -632,6 +632,34 @@ def enum_job(job):
             sv.add(bool_term(ne))
             if timed_check(sv) != z3.unsat:
                 bad.append(f"{label} differ in value")
+    # layouts are equal only if the shapes of their fields are (signedness included); a view's target has exactly the layout's size
+    bad2 = []
+    for mk in (lambda sh_: data.StructLayout({"a": sh_, "b": 2}), lambda sh_: data.UnionLayout({"a": sh_, "b": 2}), lambda sh_: data.ArrayLayout(sh_, 2),
+               lambda sh_: data.FlexibleLayout(6, {"a": data.Field(sh_, 1)})):
+        Lu, Ls = mk(Shape(4, False)), mk(Shape(4, True))
+        if Lu == Ls or not (Lu != Ls) or Lu != mk(Shape(4, False)):
+            bad2.append(f"{Lu!r} == {Ls!r} is {Lu == Ls}")
+        for v in (9, 15, 3):
+            cu = Lu.const([v, 0] if isinstance(Lu, data.ArrayLayout) else {"a": v})
+            try:
+                cs = Ls.const(cu)
+            except (ValueError, TypeError):
+                continue
+            key = 0 if isinstance(Lu, data.ArrayLayout) else "a"
+            if cs.shape() != Ls or cs[key] != refsem.in_shape(v, 4, True):
+                bad2.append(f"{Ls!r}.const(constant of {Lu!r} with a={v}) is accepted with layout {cs.shape()!r} and reads a={cs[key]}")
+        for L_ in (Lu, Ls):
+            for dw in (-2, -1, 1):
+                try:
+                    vw = data.View(L_, Signal(L_.size + dw))
+                    bad2.append(f"View({L_!r}, Signal({L_.size + dw})) is accepted (the layout is {L_.size} bits wide)")
+                except (ValueError, TypeError):
+                    pass
+            if len(Value.cast(data.View(L_, Signal(L_.size)))) != L_.size:
+                bad2.append(f"View({L_!r}, Signal({L_.size})) has another width")
+    r = dict(base, id="layout-equality-and-view-width", kind="layout equality / view target width",
+             assertion="layouts differing in the signedness of a field are unequal and do not accept each other's constants as they are; View(layout, target) requires len(target) == layout.size")
+    out.append(dict(r, status=VIOLATION, detail="; ".join(bad2[:3]), signature={"kind": "layout-eq"}, replay={"enum": True}) if bad2 else dict(r, status=PROVED))
     r = dict(base, id="array-view-slices", kind="array view slices", assertion="view[a:b:c][j] is the same value, in the element's shape, as view[range(n)[a:b:c][j]]")
     out.append(dict(r, status=VIOLATION, detail="; ".join(bad[:3]), signature={"kind": "view-slice"}, replay={"enum": True}) if bad else dict(r, status=PROVED))
     # testbench round trip on the genuine Simulator: ctx.set(x, value) then ctx.get(x) returns that value, for every member of
